@@ -252,6 +252,7 @@ def log_violation(log):
                     f"estimator with these values (probe results {o['probes']} vs {fresh['probes']})")
         if c is None:
             break
+        before = o
         try:
             if c[0] == "set_merge":
                 bb.set_merge(arg_value(tuple(c[1])), tolerance=c[2], threshold=c[3], branching_factor=c[4])
@@ -262,8 +263,39 @@ def log_violation(log):
             elif c[0] == "threshold=":
                 bb.threshold = c[1]
         except ValueError:
-            pass
+            continue
+        # frame law: a call that does not name a parameter leaves it untouched — in particular a
+        # previously chosen tolerance survives a criterion change to a criterion that has one
+        after = observe(bb, True)
+        gave_tol = (c[0] == "set_merge" and c[2] is not None) or c[0] == "tolerance="
+        gave_obj = c[0] == "set_merge" and c[1] and c[1][0] == "obj"
+        if not gave_tol and not gave_obj and before["tol"] is not None and after["tol"] is not None \
+                and after["tol"] != before["tol"]:
+            return (f"after {log[:i + 2]}: the call gave no tolerance but the tolerance changed from "
+                    f"{before['tol']} to {after['tol']}")
+        gave_thr = (c[0] == "set_merge" and c[3] is not None) or c[0] == "threshold="
+        if not gave_thr and after["thr"] != before["thr"]:
+            return f"after {log[:i + 2]}: the call gave no threshold but it changed from {before['thr']} to {after['thr']}"
+        if not (c[0] == "set_merge" and c[4] is not None) and after["bf"] != before["bf"]:
+            return f"after {log[:i + 2]}: the branching factor changed from {before['bf']} to {after['bf']}"
     return None
+
+
+def gen_log(rng):
+    tols = [None, None, 0.0, 0.05, 0.2, 1.0]
+    log = [("ctor", gen_arg(rng), rng.choice(tols), rng.choice([0.3, 0.5, 0.65, 0.9]), rng.choice([2, 5, 50]))]
+    for _ in range(rng.randint(0, 6)):
+        k = rng.random()
+        if k < 0.55:
+            log.append(("set_merge", gen_arg(rng), rng.choice(tols), rng.choice([None, None, 0.4, 0.8]),
+                        rng.choice([None, None, 3, 7])))
+        elif k < 0.7:
+            log.append(("merge_criterion=", rng.choice(hist.CRITS + ["bogus"])))
+        elif k < 0.85:
+            log.append(("tolerance=", rng.choice([0.0, 0.1, 0.7])))
+        else:
+            log.append(("threshold=", rng.choice([0.2, 0.55])))
+    return log
 
 
 def search_c17(seed, tier, failures):
@@ -272,6 +304,12 @@ def search_c17(seed, tier, failures):
             v = log_violation(d["calls"])
             if v:
                 return {"violation": v, "calls": d["calls"]}
+    lrng = random.Random(seed + 17)
+    for _ in range(1500 if tier == "quick" else 15000):
+        log = gen_log(lrng)
+        v = log_violation(log)
+        if v:
+            return {"violation": v, "calls": [list(c) for c in log]}
     rng = random.Random(seed + 3)
     for _ in range(400 if tier == "quick" else 4000):
         st = rng.getstate()
